@@ -25,6 +25,7 @@
 (*   "tie_first"   Resolve assigns sortedDistances[0] even when the two best distances tie        *)
 (*   "circle_noN"  hamming_circle without the N substitution (self-replacement keeps the letter)   *)
 (*   "idx_line"    ParseLine stores the line number instead of the index column                    *)
+(*   "falsy_index" Lookup tests `barcodes.get(q)` for truth: a member with cell index 0 is missed     *)
 (*   "stale_ext"   AS CODED for two files mapping to one alias: expand() merges into the old        *)
 (*                 extendedBarcodes, entries that became ties stay assigned (observation, see      *)
 (*                 docs/C03.md; outside the statement's "one whitelist per alias")                 *)
@@ -46,7 +47,9 @@ AllStrings == [1 .. L -> 1 .. A]
 ---------------------------------------------------------------------------------------------------
 (* files *)
 \* a file is [fmt, bcs (injective sequence of barcodes)]; the index written for line i is IdxOf(fmt, fno, i)
-IdxOf(fmt, fno, i) == IF fmt = "bc" THEN i ELSE 10 * fno + i
+\* one-column files: the 1-based line number; two-column files: a 0-BASED index column, so that the cell index 0
+\* (a falsy value in Python) occurs in both column orders and never equals the line number
+IdxOf(fmt, fno, i) == IF fmt = "bc" THEN i ELSE i - 1
 \* tokens of line i: <<"b", barcode>> looks like a barcode (all letters in ATCGNX), <<"i", n>> does not
 LineTokens(f, fno, i) ==
     CASE f.fmt = "bc"     -> << <<"b", f.bcs[i]>> >>
@@ -164,7 +167,8 @@ NextFile ==
     /\ UNCHANGED << files, k, lazy, li, idxNotFirst, wl, order, ext, pending, space, ci, want, last >>
 
 (* the two table reads of the lookup *)
-Tables(q) == IF q \in DOMAIN wl THEN << wl[q], q, 0 >> ELSE IF q \in DOMAIN ext THEN ext[q] ELSE None
+Tables(q) == IF q \in DOMAIN wl /\ (Variant # "falsy_index" \/ wl[q] # 0) THEN << wl[q], q, 0 >>
+             ELSE IF q \in DOMAIN ext THEN ext[q] ELSE None
 
 Lookup(q) ==
     /\ pc = "ready" /\ last = None
